@@ -393,6 +393,7 @@ func (w *world) opGCInterleaved() {
 		}
 	}
 	w.classes["gc-interleaved"]++
+	w.noteHeld("gc-interleaved-with-other-actors")
 	if missed {
 		w.classes["gc-returned-before-a-seam-point"]++
 	}
